@@ -326,6 +326,13 @@ impl KittyTerm {
         self.pending.is_some()
     }
 
+    /// The terminal reported an error for this image: it does not hold it (any more), and with the
+    /// image its placements are gone.
+    pub fn forget_image(&mut self, id: u32) {
+        self.images.remove(&id);
+        self.placements.retain(|pl| pl.image != id);
+    }
+
     /// Non-graphics tokens: only cursor save / restore / CUP are modelled.
     pub fn control(&mut self, tok: &Tok) -> Result<(), String> {
         match tok {
